@@ -30,6 +30,7 @@ class Ctx:
         self.notes = {}
         self.boost = False
         self.quick_k = QUICK_K
+        self.thorough_k = THOROUGH_K
         self.tmp = os.path.join(nvlib.BUILD, "tmp", "%s_%d" % (prop, os.getpid()))
 
     def quick(self):
@@ -41,11 +42,11 @@ class Ctx:
         spends three times more again."""
         if self.tier != "quick":
             if isinstance(t, (int, float)) and isinstance(q, (int, float)) and t > q:
-                return type(t)(t * THOROUGH_K)
+                return type(t)(t * self.thorough_k)
             return t
         if isinstance(q, (int, float)) and isinstance(t, (int, float)) and t > q:
             k = self.quick_k * (3 if self.boost else 1)
-            return type(q)(min(t * THOROUGH_K, k * q))
+            return type(q)(min(t * self.thorough_k, k * q))
         return q
 
     def tmpdir(self):
@@ -85,6 +86,7 @@ def main():
     mod = importlib.import_module("props." + prop)
     seed = nvlib.seed_from_env()
     ctx = Ctx(prop, a.tier, seed)
+    ctx.thorough_k = int(os.environ.get("NV_THOROUGH_SCALE", getattr(mod, "THOROUGH_K", THOROUGH_K)))
     ctx.quick_k = int(os.environ.get("NV_QUICK_SCALE", getattr(mod, "QUICK_K", QUICK_K)))   # a module sized for minutes sets QUICK_K = 1
     t0 = time.time()
     broken = []      # broken obligations (proof / audit / correspondence)
